@@ -389,7 +389,7 @@ func (env *SpecEnv) loadRef(ref string, t types.Type) Val {
 	case isArray(t):
 		return Val{T: sel(e.heapTerm(env.st, e.elemHeap(t.Underlying().(*types.Array).Elem())), ref), S: s, GoT: t}
 	}
-	return Val{T: sel(e.heapTerm(env.st, e.boxHeap(t)), ref), S: s, GoT: t}
+	return Val{T: e.derefTerm(env.st, ref, t), S: s, GoT: t}
 }
 
 // localVar finds the source variable called name in the frame's function:
